@@ -271,6 +271,29 @@ def _max_violation(cfg, k64):
   return v
 
 
+def _rdom_mixed_corner_tight(cfg, k64, tol):
+  """True when a range-dominance constraint anchored at a 'mixed' corner is active.
+
+  At the corners (first dominant vertex, last weak vertex) and (last dominant,
+  first weak) the shared vertex enters the constraint with coefficient 2, and
+  _project_partial_range_dominance moves only the two other vertices: that
+  step is not an orthogonal projection (finding F-C08-1).  The flag says the
+  step can act on this kernel; it is part of the violation signature so that
+  only this mechanism is matched by the recorded finding.
+  """
+  if not cfg.get("rdom"):
+    return False
+  w = k64.reshape(list(cfg["sizes"]) + [k64.shape[1]])
+  for dom, weak in cfg["rdom"]:
+    m = np.moveaxis(w, [dom, weak], [0, 1])
+    d, k = m.shape[0], m.shape[1]
+    for i, j in ((0, k - 1), (d - 1, 0)):
+      diff = (m[i, k - 1] - m[i, 0]) - (m[d - 1, j] - m[0, j])
+      if float(np.max(diff)) > -tol:
+        return True
+  return False
+
+
 def _run_lattice(case, out):
   import tensorflow as tf
   import tensorflow_lattice as tfl
@@ -317,7 +340,8 @@ def _run_lattice(case, out):
       if moved > TOL_W * s:
         out.violate("feasible kernel moved by %.3g (tolerance %.3g) at %s "
                     "iterations" % (moved, TOL_W * s, name), kind="fixed-point",
-                    **sig)
+                    rdom_mixed_corner_tight=_rdom_mixed_corner_tight(
+                        cfg, k64, 10 * TOL_W * s), **sig)
     return
   out.nontrivial = bool(fams and v0 > 0.05 * s)
   if not fams:
